@@ -737,7 +737,7 @@ func checkConvertErrors(w *World, r *Report) {
 			}
 		}
 	}
-	r.Expect("err.propagate.convert", 8)
+	r.Expect("err.propagate.convert", 3)
 }
 
 var _ = strings.Join
